@@ -70,6 +70,24 @@ def r6(fx):
                          for x in range(size)] for y in range(size)]
                 yield ob(f'matrix_iter size {n} scale {scale} border {border}', [list(r) for r in rows] == want, fn,
                          got=f'{len(rows)} rows x {len(rows[0]) if rows else 0}', want=f'{size} x {size} with value(y, x) = module(y//s - b, x//s - b)')
+    # the verbose iterator applies the same scale / border geometry to the module types
+    mvb = FuncVal(fx.fn('utils', 'matrix_iter_verbose'), genv, it)
+    qz = C(fx, 'TYPE_QUIET_ZONE')
+    for n in (11, 21):
+        m = reg.Matrix([reg.Row([(x * 7 + y * 3) % 2 for x in range(n)]) for y in range(n)])
+        dflt = 2 if n < 21 else 4
+        base = [list(r) for r in mvb(m, (n, n), 1, 0)]
+        for scale, s_eff in ((1, 1), (2, 2), (3, 3), (2.9, 2)):
+            for border in (None, 0, 1, 3):
+                if (scale, border) == (1, 0):
+                    continue
+                b = dflt if border is None else border
+                rows = [list(r) for r in mvb(m, (n, n), scale, border)]
+                size = (n + 2 * b) * s_eff
+                want = [[(base[y // s_eff - b][x // s_eff - b] if 0 <= y // s_eff - b < n and 0 <= x // s_eff - b < n else qz)
+                         for x in range(size)] for y in range(size)]
+                yield ob(f'matrix_iter_verbose size {n} scale {scale} border {border}', rows == want, fx.fn('utils', 'matrix_iter_verbose'),
+                         got=f'{len(rows)} rows x {len(rows[0]) if rows else 0}', want=f'{size} x {size} with type(y, x) = type of module (y//s - b, x//s - b), quiet zone outside')
     for name in ('matrix_iter', 'matrix_iter_verbose'):
         f = FuncVal(fx.fn('utils', name), genv, it)
         m = reg.Matrix([reg.Row([0] * 11) for _ in range(11)])
@@ -93,14 +111,24 @@ def r6(fx):
 
 
 def _classifier(fx, it, genv, n, val):
-    """get_bit closure of matrix_iter_verbose for an n x n symbol whose modules all have value `val`."""
+    """(i, j) -> module type, as matrix_iter_verbose classifies an n x n symbol whose modules all have value `val`.
+    If the classifier is a function nested in matrix_iter_verbose with two parameters (whatever its name) it is called cell
+    by cell (so that large symbols can be examined on a compressed grid); otherwise matrix_iter_verbose itself is interpreted
+    once with a border of 2 and the answers are read from the grid it yields."""
     fn = fx.fn('utils', 'matrix_iter_verbose')
-    k = [i for i, s in enumerate(fn.body) if isinstance(s, ast.FunctionDef) and s.name == 'get_bit']
-    need(len(k) == 1, 'get_bit not found in matrix_iter_verbose')
     m = reg.Matrix([reg.Row([val] * n) for _ in range(n)])
-    e = dict(genv, matrix=m, matrix_size=(n, n), scale=1, border=0)
-    it.block(fn.body[:k[0] + 1], e)
-    return e['get_bit']
+    k = [i for i, s in enumerate(fn.body) if isinstance(s, ast.FunctionDef) and len(s.args.args) == 2 and not s.args.vararg and not s.args.kwonlyargs]
+    if len(k) == 1:
+        e = dict(genv, **{p: v for p, v in zip(src.params(fn), (m, (n, n), 1, 0))})
+        try:
+            it.block(fn.body[:k[0] + 1], e)
+            return e[fn.body[k[0]].name]
+        except Unknown:
+            pass
+    rows = [list(r) for r in FuncVal(fn, genv, it)(m, (n, n), 1, 2)]
+    if len(rows) != n + 4 or any(len(r) != n + 4 for r in rows):
+        raise Unknown(f'matrix_iter_verbose yields {len(rows)} rows for size {n} with border 2')
+    return lambda i, j: rows[i + 2][j + 2]
 
 
 def _coords(v, full):
@@ -117,7 +145,7 @@ def _coords(v, full):
 def r3(fx):
     it = Interp(max_steps=2_000_000_000)
     genv = _utils_env(fx, it)
-    fn = fx.fn('utils', 'matrix_iter_verbose.get_bit')
+    fn = fx.fn('utils', 'matrix_iter_verbose.get_bit') if fx.forest.has_func('utils', 'matrix_iter_verbose.get_bit') else fx.fn('utils', 'matrix_iter_verbose')
     full = fx.tier == 'thorough'
     sizes = list(iso.ALL_VERSIONS) if full else [-3, -2, -1, 0, 1, 2, 6, 7, 14, 40]
     T = {t: (C(fx, f'TYPE_{t}_LIGHT'), C(fx, f'TYPE_{t}_DARK')) for t in TYPES}
